@@ -6,6 +6,7 @@ import (
 	"os"
 	"path/filepath"
 	"sort"
+	"strconv"
 	"strings"
 
 	"git.metabarcoding.org/obitools/obitools4/obitools4/pkg/zverif/simrt"
@@ -131,7 +132,11 @@ func (u uniqRec) text() string {
 		a["sample"] = u.Sample
 	}
 	if u.Tag != "" {
-		a["tag"] = u.Tag
+		if f, err := strconv.ParseFloat(u.Tag, 64); err == nil {
+			a["tag"] = f // a numeric category value (1, 2, 1.5, 1.25 ...)
+		} else {
+			a["tag"] = u.Tag
+		}
 	}
 	if u.Merged != nil {
 		a["merged_sample"] = u.Merged
@@ -324,6 +329,11 @@ func drawUniqCase(t *simrt.Tape, thorough bool) ([]uniqRec, uniqOpts) {
 	}
 	n := 2 + t.Choose(maxRecs-1)
 	recs := make([]uniqRec, n)
+	// category values: words, or numbers some of which share their integer part
+	tagValues := []string{"x", "y", "z"}
+	if t.Choose(3) == 2 {
+		tagValues = []string{"1", "1.5", "1.25", "2", "2.5"}
+	}
 	for i := range recs {
 		r := uniqRec{ID: fmt.Sprintf("u%04d", i), Seq: seqs[t.Choose(len(seqs))]}
 		switch t.Choose(4) {
@@ -351,7 +361,7 @@ func drawUniqCase(t *simrt.Tape, thorough bool) ([]uniqRec, uniqOpts) {
 			r.Sample = fmt.Sprintf("s%d", t.Choose(4))
 		}
 		if t.Choose(3) != 0 {
-			r.Tag = []string{"x", "y", "z"}[t.Choose(3)]
+			r.Tag = tagValues[t.Choose(len(tagValues))]
 		}
 		recs[i] = r
 	}
@@ -566,7 +576,7 @@ func init() {
 		Random: func(tier string) int { return map[string]int{"quick": 320, "thorough": 24000}[tier] },
 		Run:    runC06,
 		Level:  "exploration",
-		Rule:   "enumerated part: more than 65536 distinct 16-mers (+ a few duplicates) in one chunk, in memory (quick) and also on disk (thorough) (also drawn with probability 1/400 in the random part, 65537-68536 sequences); each other case = a generated multiset of records (1-25 distinct sequences incl. one-base variants, counts absent/1/n, sample present, absent or already merged_sample maps, tag present or absent) in a drawn input permutation, dereplicated by the real obiuniq main in a child process with drawn -m / -c / --na-value / --no-singleton / --in-memory or on-disk / --chunk-count 1,2,3,7,100 / --max-cpu / --batch-size and a seeded schedule (on-disk mode uses real chunk files in the run's TMPDIR); the output is compared as a set with a reference group-by (count sums, merged map sums, singleton rule). distinct = distinct (options, configuration, schedule signature); non-trivial = at least one step with >=2 runnable tasks",
+		Rule:   "enumerated part: more than 65536 distinct 16-mers (+ a few duplicates) in one chunk, in memory (quick) and also on disk (thorough) (also drawn with probability 1/400 in the random part, 65537-68536 sequences); each other case = a generated multiset of records (1-25 distinct sequences incl. one-base variants, counts absent/1/n, sample present, absent or already merged_sample maps, tag present or absent, with word or numeric values sharing an integer part) in a drawn input permutation, dereplicated by the real obiuniq main in a child process with drawn -m / -c / --na-value / --no-singleton / --in-memory or on-disk / --chunk-count 1,2,3,7,100 / --max-cpu / --batch-size and a seeded schedule (on-disk mode uses real chunk files in the run's TMPDIR); the output is compared as a set with a reference group-by (count sums, merged map sums, singleton rule). distinct = distinct (options, configuration, schedule signature); non-trivial = at least one step with >=2 runnable tasks",
 		Real:   []string{"the real obiuniq main", "obichunk (IUniqueSequence, ISequenceChunk, ISequenceChunkOnDisk, ISequenceSubChunk)", "obiiter.Distribute / IMergeSequenceBatch", "obiformats.WriterDispatcher and the FASTA writer/reader on real temporary files", "obiseq.Merge / StatsOn"},
 		Stub:   []string{"sync primitives, pools, scheduler (simrt)", "process exit (captured)", "stdout/stderr (files)"},
 	})
